@@ -27,6 +27,14 @@ type Script struct {
 	// authentication message) is replaced by FaultKind; FaultStep < 0 = no fault
 	FaultStep int
 	FaultKind string
+	// FRawResp: the raw response put on the wire at the fault step is the 4-byte prefix
+	// RawPrefix followed by RawPayload bytes 'j'; then the connection is closed
+	// (RawEnd "close") or left open and silent (RawEnd "silent"; OnFault is called so that
+	// the harness can arm the connection's read deadline)
+	RawPrefix  int32
+	RawPayload int
+	RawEnd     string
+	OnFault    func()
 }
 
 const Absent = -1000
@@ -43,6 +51,7 @@ const (
 	FJunk     = "junk"     // well-formed response whose SASL payload is garbage  (auth steps)
 	FClose    = "close"    // connection closed instead of a response
 	FSilent   = "silent"   // no response at all, connection left open (not part of the enumeration)
+	FRawResp  = "rawresp"  // raw exchange: an arbitrary length prefix and payload, then close or silence
 )
 
 // Journal is what the broker saw on one connection.
@@ -176,6 +185,21 @@ func serve(c net.Conn, sc *Script, j *Journal) {
 		case FNegLen:
 			_, err := c.Write([]byte{0xff, 0xff, 0xff, 0xfe})
 			return err == nil
+		case FRawResp:
+			b := make([]byte, 4+sc.RawPayload)
+			binary.BigEndian.PutUint32(b[:4], uint32(sc.RawPrefix))
+			for i := 4; i < len(b); i++ {
+				b[i] = 'j'
+			}
+			c.Write(b)
+			if sc.RawEnd == "silent" {
+				if sc.OnFault != nil {
+					sc.OnFault()
+				}
+				return true
+			}
+			drain()
+			return false
 		case FClose:
 			drain()
 			return false
